@@ -4,7 +4,6 @@ import (
 	"fmt"
 	"go/ast"
 	"go/parser"
-	"go/printer"
 	"go/token"
 	"os"
 	"path/filepath"
@@ -200,8 +199,7 @@ func abbreviate(s string) string {
 
 var onMethodRe = regexp.MustCompile(`^on([A-Za-z_][A-Za-z_0-9]*?)(\d+)$`)
 
-// actionBodies returns, per rule, the bodies of its on<Rule><n> methods (in index order), printed from the syntax
-// tree without comments or positions.
+// actionBodies returns, per rule, the fingerprints of its on<Rule><n> methods (in index order), see actionFingerprint.
 func actionBodies(path string) (map[string][]string, error) {
 	fset := token.NewFileSet()
 	f, err := parser.ParseFile(fset, path, nil, parser.SkipObjectResolution)
@@ -222,10 +220,6 @@ func actionBodies(path string) (map[string][]string, error) {
 		if m == nil {
 			continue
 		}
-		var sb strings.Builder
-		if err := printer.Fprint(&sb, token.NewFileSet(), fd.Body); err != nil {
-			return nil, err
-		}
 		var params []string
 		for _, p := range fd.Type.Params.List {
 			for _, nm := range p.Names {
@@ -233,7 +227,7 @@ func actionBodies(path string) (map[string][]string, error) {
 			}
 		}
 		ix, _ := strconv.Atoi(m[2])
-		tmp[m[1]] = append(tmp[m[1]], ent{ix, "(" + strings.Join(params, ",") + ")" + sb.String()})
+		tmp[m[1]] = append(tmp[m[1]], ent{ix, "(" + strings.Join(params, ",") + ")\n" + actionFingerprint(fd)})
 	}
 	out := map[string][]string{}
 	for k, es := range tmp {
@@ -254,4 +248,99 @@ func firstDiff(a, b string) string {
 		}
 	}
 	return "(prefix of the other)"
+}
+
+// actionFingerprint summarises what a code block does to the AST it builds, independently of control-structure form
+// (switch or if chain), of the names of its locals and of helper locals: the set of
+//   - constructors called (ast.New<Kind>) and other package-level functions called;
+//   - field stores `<node>.<Field> = <value>` with single-definition locals inlined and remaining locals anonymised;
+//   - type assertions to types of package ast (a new assertion means a new case distinction on the node kind);
+//   - string literals (operators compared, error texts);
+//   - shapes of returned values.
+// One line per element, sorted.
+func actionFingerprint(fd *ast.FuncDecl) string {
+	set := map[string]bool{}
+	params := map[string]bool{}
+	for _, p := range fd.Type.Params.List {
+		for _, nm := range p.Names {
+			params[nm.Name] = true
+		}
+	}
+	inl := inlineLocals(fd, nil)
+	// anonymise what is still a local (multi-definition variables, loop variables); keep parameters, package names, types
+	locals := map[string]bool{}
+	ast.Inspect(fd.Body, func(n ast.Node) bool {
+		switch x := n.(type) {
+		case *ast.AssignStmt:
+			if x.Tok == token.DEFINE {
+				for _, l := range x.Lhs {
+					if id, ok := l.(*ast.Ident); ok {
+						locals[id.Name] = true
+					}
+				}
+			}
+		case *ast.ValueSpec:
+			for _, nm := range x.Names {
+				locals[nm.Name] = true
+			}
+		case *ast.RangeStmt:
+			for _, e := range []ast.Expr{x.Key, x.Value} {
+				if id, ok := e.(*ast.Ident); ok {
+					locals[id.Name] = true
+				}
+			}
+		}
+		return true
+	})
+	anon := func(s string) string {
+		for l := range locals {
+			if params[l] {
+				continue
+			}
+			s = regexp.MustCompile(`(^|[^A-Za-z0-9_.])`+regexp.QuoteMeta(l)+`($|[^A-Za-z0-9_])`).ReplaceAllString(s, "${1}_${2}")
+			s = regexp.MustCompile(`(^|[^A-Za-z0-9_.])`+regexp.QuoteMeta(l)+`($|[^A-Za-z0-9_])`).ReplaceAllString(s, "${1}_${2}")
+		}
+		return s
+	}
+	ast.Inspect(fd.Body, func(n ast.Node) bool {
+		switch x := n.(type) {
+		case *ast.CallExpr:
+			cn := callName(x)
+			switch {
+			case strings.HasPrefix(cn, "ast.New"):
+				set["new "+cn] = true
+			case cn != "" && !strings.Contains(cn, ".") && !locals[cn] && cn != "len" && cn != "append" && cn != "string" && cn != "make":
+				set["call "+cn] = true
+			case strings.HasPrefix(cn, "errors.") || strings.HasPrefix(cn, "strconv.") || strings.HasPrefix(cn, "strings.") || strings.HasPrefix(cn, "fmt."):
+				set["call "+cn] = true
+			}
+		case *ast.AssignStmt:
+			for i, l := range x.Lhs {
+				if se, ok := l.(*ast.SelectorExpr); ok && i < len(x.Rhs) {
+					set["set ."+se.Sel.Name+" = "+anon(inl(x.Rhs[i]))] = true
+				}
+			}
+		case *ast.TypeAssertExpr:
+			if x.Type != nil && strings.Contains(nospace(x.Type), "ast.") {
+				set["assert "+nospace(x.Type)] = true
+			}
+		case *ast.BasicLit:
+			if x.Kind == token.STRING {
+				set["lit "+x.Value] = true
+			}
+		case *ast.ReturnStmt:
+			var rs []string
+			for _, e := range x.Results {
+				rs = append(rs, anon(inl(e)))
+			}
+			set["return "+strings.Join(rs, ", ")] = true
+		}
+		return true
+	})
+	var out []string
+	for k := range set {
+		out = append(out, k)
+	}
+	sort.Strings(out)
+	return strings.Join(out, "\n")
 }
